@@ -10,6 +10,7 @@ pub mod c09;
 pub mod c10;
 pub mod c12;
 pub mod c13;
+pub mod c14;
 pub mod c15;
 pub mod sweep;
 pub mod faults;
@@ -38,6 +39,7 @@ pub fn all() -> Vec<PropDef> {
     PropDef { id: "C08", spaces: c08::spaces, assumptions: c08::ASSUMPTIONS, budget: (60.0, 3000.0), post: None },
     PropDef { id: "C09", spaces: c09::spaces, assumptions: c09::ASSUMPTIONS, budget: (60.0, 3000.0), post: None },
     PropDef { id: "C10", spaces: c10::spaces, assumptions: c10::ASSUMPTIONS, budget: (60.0, 3000.0), post: None },
+    PropDef { id: "C14", spaces: c14::spaces, assumptions: c14::ASSUMPTIONS, budget: (120.0, 3000.0), post: None },
     PropDef { id: "C15", spaces: c15::spaces, assumptions: c15::ASSUMPTIONS, budget: (120.0, 3000.0), post: None },
     PropDef { id: "C13", spaces: c13::spaces, assumptions: c13::ASSUMPTIONS, budget: (120.0, 3000.0), post: None },
     PropDef {
